@@ -237,7 +237,7 @@ def run(tier, seed, replay):
         # ---------------- option values are descriptions: reusing one value in several compilations changes nothing
         ucases = []
         optpool = [["func", 0, 0, "A"], ["func", 1, 1, "B"], ["func", 0, 0, "C"], ["func", 0, 2, "D"], ["func", 2, 3, "E"], ["iter", 0, 2, "I"], ["iter", 2, 3, "J"], ["iter", 0, 0, "K"], ["vars", 0, 0, "v"], ["env", 0, 0, "e"]]
-        srcs = ["[cf, cf(1)]", "cf", "cf(1)", "[cf(1; 2)]", "[cfi]", "[cfi(1; 2)]", "[cfi(1; 2; 3)]", "builtins | map(select(startswith(\"cf\"))) | sort", "[cf?, cfi?]", "try cf(1; 2; 3) catch \"e\"", "$v", "env.K", "[cf, $v, env.K]"]
+        srcs = ["[cf, cf(1)]", "cf", "cf(1)", "[cf(1; 2)]", "[cfi]", "[cfi(1; 2)]", "[cfi(1; 2; 3)]", "builtins | map(select(startswith(\"cf\"))) | sort", "[builtins[] | select(startswith(\"cf\"))]", "builtins | map(select(startswith(\"cf\"))) | . == sort", "[cf?, cfi?]", "try cf(1; 2; 3) catch \"e\"", "$v", "env.K", "[cf, $v, env.K]"]
         for _ in range(150 if quick else 10000):
             opts = r.sample(optpool, r.randrange(2, 6))
             steps = []
@@ -256,6 +256,11 @@ def run(tier, seed, replay):
         for p in hprogs:
             for a, b in coll:
                 hcases.append({"id": len(hcases), "k": "history", "src": p, "input": jqgen.V(a), "other": jqgen.V(b)})
+        # the list of builtins is collected from Go maps: its order (name, then arity) may not depend on the run
+        for p in ("builtins", "[builtins[] | select(test(\"^[a-l]\"))]", "builtins | map(split(\"/\")) | . == sort_by(.[0], (.[1] | tonumber))", "[builtins[] | split(\"/\")[0]] | . == sort", "builtins | length, first, last",
+                  "[limit(40; builtins[])]", "builtins | index(\"add/0\") < index(\"add/1\"), index(\"range/1\") < index(\"range/2\"), index(\"range/2\") < index(\"range/3\")"):
+            for _ in range(3):
+                hcases.append({"id": len(hcases), "k": "history", "src": p, "input": jqgen.V(None), "other": jqgen.V(1)})
         for c in r.sample(cor, 60 if quick else len(cor)) if False else []:
             pass
         names2 = [n for n in json.loads(vc.sh([gojq, "-nc", "builtins"]).stdout) if n.rsplit("/", 1)[0] not in EXCEPT]
